@@ -42,6 +42,7 @@ def plan(prop, tier):
             shards.append(('corrupt', SEED * 1000 + i, per))
         shards.append(('nest', 0, 0))
     elif prop == 'C10':
+        shards.append(('faults', 0, 0))
         for i in range(8):
             shards.append(('shapes', i, 8))
         n = 16 if q else 64
@@ -94,8 +95,8 @@ def consistency(prop, acc, b, d):
 
 def judge_case(prop, clog, b, expect_tn, out, wit):
     """apply the offline oracles of `prop` to one pbat record"""
-    f = clog.ops.get(0)
-    if not f or f[0] != 'pbat':
+    f = next((v for _i, v in sorted(clog.ops.items()) if v and v[0] == 'pbat'), None)
+    if not f:
         return
     d = parse_pbat(f)
     acc = d['acc']
@@ -135,7 +136,10 @@ def judge_case(prop, clog, b, expect_tn, out, wit):
 # ---------------------------------------------------------------------------------------------
 # case builders
 
-def pbat_case(cid, b, cfg='default'):
+def pbat_case(cid, b, cfg='default', comma_locale=False):
+    if comma_locale:
+        # the same parse under a locale whose decimal point is a comma: results must not change
+        return (cid, cfg, ['setloc 1', 'pbat =' + b.hex(), 'setloc 0'])
     return (cid, cfg, ['pbat =' + b.hex()])
 
 
@@ -178,6 +182,12 @@ def invalid_classes(rng):
     for t in [b'[1,2,3]', b'{"a":1,"b":[true,false,null]}', b'"abc\\u0041d"', b'[{"k":"v"},1.5e3]', b'{"a":{"b":{"c":[]}}}']:
         for n in range(1, len(t)):
             C['truncated'].append(t[:n])
+    # long runs of number characters: whatever the verdict on them (no claim beyond 63 characters),
+    # rejecting them must not leave anything allocated
+    C['long-number-runs'] = []
+    for c in (b'e', b'E', b'+', b'-', b'.', b'e+', b'-.'):
+        for L in (63, 64, 70, 200):
+            C['long-number-runs'] += [b'-' + (c * L)[:L], b'1' + (c * L)[:L], b'-' + b'0' * L + c, b'--' + b'1' * L]
     lim = jsonref.nesting_limit(REPO)
     C['nesting'] = [b'[' * (lim + 1) + b']' * (lim + 1), b'[' * (lim + 1), (b'{"a":' * (lim + 1)) + b'1' + b'}' * (lim + 1),
                     b'[' * (lim + 5) + b'1' + b']' * (lim + 5), (b'[{"a":' * (lim // 2 + 1)) + b'0' + (b'}]' * (lim // 2 + 1))]
@@ -220,6 +230,29 @@ def run_shard(shard_prop, bins, workdir, tier):
     if kind == 'fuzz':
         from . import fuzzrun
         return fuzzrun.run_fuzz(prop, bins['fuzz'], workdir, a, bcount, rng)
+    if kind == 'faults':
+        # the failure clauses of C10 also hold when the parse fails for lack of memory: every request
+        # index of the whole battery is refused once (fault loop), under both allocator configurations
+        texts = [b'{"a": {"b": [true, false, null]}, "c": "d"}', b'[1, "two", [3]]', b'"text"', b'7', b'[1,', b'{"k":']
+        cases = []
+        for ci, t in enumerate(texts):
+            for cfg in ('custom', 'default'):
+                cases.append((len(cases), cfg, ['fbegin', 'ftarget pbat =' + t.hex(), 'fend']))
+        for fl, binary in bins.items():
+            if fl in ('fuzz', 'msan'):
+                continue
+            by_id = {c[0]: (c[1], c[2]) for c in cases}
+            wit = case_witness(by_id, fl, thorough)
+            logs = run_batch(binary, fl, cases, workdir, 'C10-faults', thorough)
+            for c in cases:
+                cl = logs[c[0]]
+                out.vios += mechanical_violations(prop, cl, wit)
+                its = [r for r in cl.seq if r[0] == 'F' and r[1] != 'done']
+                out.evals += len(its)
+                out.count('fault_iterations', len(its))
+                out.seen('faults', c[0])
+                out.count('nontrivial')
+        return out
     if kind == 'shapes':
         texts = corpus.shape_corpus()
         pref = corpus.all_prefixes(texts)
@@ -323,7 +356,7 @@ def run_shard(shard_prop, bins, workdir, tier):
     cases = []
     meta = {}
     for i, (b, etn, label) in enumerate(inputs):
-        cases.append(pbat_case(i, b))
+        cases.append(pbat_case(i, b, comma_locale=(prop in ('C02', 'C01', 'C10') and label.startswith(('valid', 'mutant')) and i % 5 == 3)))
         meta[i] = (b, etn, label)
     nest_cases = []
     if kind == 'nest':
@@ -367,7 +400,9 @@ def run_shard(shard_prop, bins, workdir, tier):
                     out.seen(b)
                     if len(b) > 1:
                         out.count('nontrivial')
-                    f = cl.ops.get(0)
+                    f = next((v for _i, v in sorted(cl.ops.items()) if v and v[0] == 'pbat'), None)
+                    if cl.ops.get(0) and cl.ops[0][:2] == ['setloc', 'comma']:
+                        out.count('parsed_under_comma_locale')
                     if f and len(out.samples) < 4 and len(b) < 60 and (cid % 97 == 3):
                         out.sample({'input': repr(b), 'class': label, 'accepted_by_variant': parse_pbat(f)['acc']})
         if nest_cases:
@@ -441,6 +476,9 @@ def finish(prop, tier, results):
         'library_calls_under_monitor': tot.evals,
     }
     for k in ('fuzz_execs', 'fuzz_sessions', 'fuzz_cov_edges_max', 'fuzz_new_corpus_units', 'fuzz_seed_inputs'):
+        if k in tot.stats:
+            cov[k] = tot.stats[k]
+    for k in ('parsed_under_comma_locale', 'fault_iterations'):
         if k in tot.stats:
             cov[k] = tot.stats[k]
     for k in ('claims_reject_prefix_mode', 'claims_reject_terminated_mode', 'no_claim', 'stack_measurements', 'stack_plateau_bytes', 'stack_max_bytes'):
